@@ -301,7 +301,17 @@ Program gen_program(uint64_t seed, const GenParams &gp, const std::string &profi
                     }
                     emit(o);
                 }
-                else if (y < 0.45) { o.kind = (f.ranks[0].abuf && rng.chance(0.5)) ? OP_BPUT : OP_IPUT; gen_partitioned(rng, v, f.numrecs, np, false, gp, o.acc); for (auto &a : o.acc) if (a.form == F_VARD) { a.form = F_VARS; a.flexible = false; } if (emit(o)) pending++; }
+                else if (y < 0.45) {
+                    // one post, or a burst of 3..6 posts (puts or gets) to the same variable completed by one wait: many sub-requests whose file ranges nest / interleave in one aggregation
+                    int burst = rng.chance(0.2) ? 3 + (int)rng.below(4) : 1; bool gets = burst > 1 && rng.chance(0.3); int posted = 0;
+                    for (int b = 0; b < burst && f.open; b++) {
+                        Op o2; o2.file = fi; o2.var = o.var;
+                        if (gets) { o2.kind = OP_IGET; for (int r = 0; r < np; r++) { Access a = gen_region_access(rng, v, f.ranks[r].numrecs, true, false, gp); if (a.form == F_VARD) { a.form = F_VARS; a.flexible = false; } if (rng.chance(0.2)) a.active = false; o2.acc.push_back(a); } }
+                        else { o2.kind = (f.ranks[0].abuf && rng.chance(0.5)) ? OP_BPUT : OP_IPUT; gen_partitioned(rng, v, f.numrecs, np, false, gp, o2.acc); for (auto &a : o2.acc) if (a.form == F_VARD) { a.form = F_VARS; a.flexible = false; } }
+                        if (emit(o2)) { pending++; posted++; }
+                    }
+                    if (burst > 1 && posted > 1 && rng.chance(0.8)) { Op w; w.file = fi; w.kind = OP_WAIT; w.coll = !indep; w.waits.resize(np); for (auto &ws : w.waits) { ws.mode = rng.chance(0.7) ? 1 : 4; if (rng.chance(0.2)) ws.nostatus = true; } if (emit(w)) { pending = 0; if (rng.chance(0.7)) { Op sp; sp.kind = OP_SYNCPOINT; sp.file = fi; emit(sp); } } }
+                }
                 else if (y < 0.65) { o.kind = OP_IGET; for (int r = 0; r < np; r++) { Access a = gen_region_access(rng, v, f.ranks[r].numrecs, true, false, gp); if (a.form == F_VARD) { a.form = F_VARS; a.flexible = false; } if (rng.chance(0.2)) a.active = false; o.acc.push_back(a); } if (emit(o)) pending++; }
                 else if (y < 0.92) {
                     o.kind = OP_WAIT; o.coll = !indep; o.waits.resize(np);
